@@ -37,7 +37,7 @@ def generate(T, tier):
             name = "%s_s2" % mod
             code.append(HARNESS % {"unw": 66, "stub": "", "name": name, "mod": mod, "expr": msm_any(G, mod, 2, len(cells), "cand", (sats, cells)),
                                    "bytes": 200, "number": m["number"], "strict": "true"})
-            hs.append({"name": "c01gen::%s" % name, "group": "msm", "tier": "quick" if mod in QUICK_MSM else "thorough",
+            hs.append({"name": "c01gen::%s" % name, "group": "msm", "tier": "thorough",
                        "bounds": "%s: satellites {40,3} x signals %s listed out of order, every integer field symbolic, floats from boundary candidates" % (mod, [s[0] for s in sigs])})
             continue
         ns = [0] if not G.has_var(mod) else [0, 1, 2]
@@ -48,14 +48,15 @@ def generate(T, tier):
             unw = max(12, min(cap, 64) + 2, nbytes + 2)
             code.append(HARNESS % {"unw": unw, "stub": stub, "name": name, "mod": mod, "expr": G.any_expr(mod, n, "cand"), "bytes": nbytes,
                                    "number": m["number"], "strict": "true"})
-            q = mod in QUICK and n == ns[-1]
+            # measured green in < 8 min each (the other types take 20-30 min or exceed 12 GB: thorough tier)
+            q = (mod, n) in (("msg1005", 0), ("msg1006", 0), ("msg1013", 2), ("msg1017", 2))
             grp = "stub" if mod == "msg1029" else ("big" if cap >= 390 else "main")
             hs.append({"name": "c01gen::%s" % name, "group": grp, "tier": "quick" if q else "thorough",
                        "bounds": "%s with every list/string at %d elements: integers over their full type, floats from {0, +-res, range ends, just outside, 1.5res, NaN, +inf, None}" % (mod, n)})
     gen.write_gen("c01_list.rs", "\n".join(code))
     return {
         "harnesses": hs,
-        "groups": {"main": {"features": ["c01"], "timeout_s": 2400},
+        "groups": {"main": {"features": ["c01"], "est_gb": 6, "mem_gb": 16, "timeout_s": 3000},
                    "msm": {"features": ["c01"], "est_gb": 6, "timeout_s": 3000},
                    "big": {"features": ["c01"], "est_gb": 10, "timeout_s": 3000, "unwindset": [["try_from_fn_erased", 392]]},
                    "stub": {"features": ["c01"], "timeout_s": 2400, "unwindset": [["try_from_fn_erased", 392]], "kani_args": ["-Z", "stubbing"]}},
